@@ -554,8 +554,9 @@ class Scalar(Parametrized):
         return Scalar(self.array[0].diff(var), is_mixed=self.is_mixed)
 
     def dagger(self):
-        return self if self._dagger is None\
-            else Scalar(self.array[0].conjugate())
+        value = self.array[0]
+        return self if value.conjugate() == value\
+            else Scalar(value.conjugate())
 
 
 class MixedScalar(Scalar):
